@@ -1,6 +1,6 @@
 #!/bin/bash
 # lead tool: run every seeded change matching the given glob (default: reverts + independent mutations) against its property's check
-cd /verif
+cd "$(dirname "$0")/.."
 pat=${1:-"revert-* *-mut?"}
 par=${2:-4}
 ls -d $(for g in $pat; do echo seeded/$g; done) 2>/dev/null | xargs -n1 basename | \
